@@ -324,3 +324,7 @@ def _finish(res, sc, allspec, cbs, tls):
 def sample_view(sc, r):
     return {"bursts": [{"t": it["t"], "frames": [[f["fin"], f["op"], len(f["hex"]) // 2] for f in it["frames"]]} for it in sc["items"]],
             "end": sc["end"], "callbacks": sc["callbacks"], "tls": sc.get("tls"), "chunk_sizes": sc.get("sizes"), "cross_redirect": sc.get("cross_redirect"), "dispatcher": sc.get("dispatcher")}
+
+
+# round 7 summary for the evidence file
+RULE = RULE + "  Round 7: a raising callback raises one of twelve exception classes, the library's own among them (WebSocketConnectionClosedException, ConnectionResetError, BrokenPipeError, WebSocketTimeoutException, OSError, ValueError, WebSocketException, protocol / payload exception, UnicodeError, AttributeError, StopIteration): reported to on_error, later events still arrive."
